@@ -156,17 +156,17 @@ impl<'a> GeneratorState<'a> {
                 let offset = if v.memory == VariableMemory::Superchip {
                     match mnemonic {
                         STA | STX | STY => *off,
-                        _ => off + 0x80,
+                        _ => off.wrapping_add(0x80),
                     }
                 } else if let VariableMemory::MemoryOnChip(_) = v.memory {
                     if self.bankswitching_scheme == "3E" {
                         match mnemonic {
-                            STA | STX | STY => off + 0x400,
+                            STA | STX | STY => off.wrapping_add(0x400),
                             _ => *off,
                         }
                     } else if self.bankswitching_scheme == "3EP" {
                         match mnemonic {
-                            STA | STX | STY => off + 0x200,
+                            STA | STX | STY => off.wrapping_add(0x200),
                             _ => *off,
                         }
                     } else {
@@ -213,7 +213,7 @@ impl<'a> GeneratorState<'a> {
                             dasm_operand = "#0".to_string();
                             nb_bytes = 2;
                         } else {
-                            let off = if high_byte { offset + 1 } else { offset };
+                            let off = if high_byte { offset.wrapping_add(1) } else { offset };
                             if off != 0 {
                                 dasm_operand = format!("{}+{}", variable, off);
                             } else {
@@ -250,7 +250,7 @@ impl<'a> GeneratorState<'a> {
                             // (constant offset)
                             return Err(self.compiler_state.syntax_error("Indirect adressing mode is only available with Y (use Y as array index)", pos));
                         } else {
-                            let off = if high_byte { offset + 1 } else { offset };
+                            let off = if high_byte { offset.wrapping_add(1) } else { offset };
                             if off != 0 {
                                 dasm_operand = format!("{}+{}", variable, off);
                             } else {
@@ -260,7 +260,7 @@ impl<'a> GeneratorState<'a> {
                             // address beyond page zero: the assembler then uses absolute mode
                             let beyond_zeropage = match &v.def {
                                 VariableDefinition::Value(VariableValue::Int(a)) => {
-                                    v.var_const && a + off > 0xff
+                                    v.var_const && a.wrapping_add(off) > 0xff
                                 }
                                 _ => false,
                             };
@@ -275,7 +275,7 @@ impl<'a> GeneratorState<'a> {
                     }
                     VariableType::CharPtrPtr | VariableType::ShortPtr => {
                         let v = self.compiler_state.get_variable(variable);
-                        let off = offset + if high_byte { v.size as i32 } else { 0 };
+                        let off = offset.wrapping_add(if high_byte { v.size as i32 } else { 0 });
                         if off > 0 {
                             dasm_operand = format!("{}+{}", variable, off);
                         } else {
